@@ -1,5 +1,7 @@
 """C07 harness (python target, pickle filter): the embedded _MODEL_ blob must not depend on the clock or on where the inputs live."""
 import pathlib
+
+import xh.xhpatch  # noqa: F401
 import typing
 
 import pydsdl
